@@ -1150,7 +1150,9 @@ func (se *stanzaEncoder) EncodeToken(t xml.Token) error {
 				tok.Name.Space = se.ns
 			}
 			var foundID, foundFrom bool
-			attrs := tok.Attr[:0]
+			// The token (and with it the memory behind its attribute slice) belongs
+			// to the caller: filter into a slice of our own.
+			attrs := make([]xml.Attr, 0, len(tok.Attr)+2)
 			for _, attr := range tok.Attr {
 				// Only unqualified attributes are the stanza's own id and from (x:id
 				// or x:from in some other namespace are neither a substitute for
@@ -1199,7 +1201,7 @@ func (se *stanzaEncoder) EncodeToken(t xml.Token) error {
 
 		// For all start elements, regardless of depth, prevent duplicate xmlns
 		// attributes. See https://mellium.im/issue/75
-		attrs := tok.Attr[:0]
+		attrs := make([]xml.Attr, 0, len(tok.Attr))
 		for _, attr := range tok.Attr {
 			if attr.Name.Local == "xmlns" && tok.Name.Space != "" {
 				continue
